@@ -40,6 +40,11 @@ def clear_engine_cache():
 
 
 
+class CsvRegexPattern(str):
+    """Pattern text read from a legacy CSV rule file: always a regular expression,
+    never an expression, whatever it looks like (see _is_expression_pattern)."""
+
+
 def load_merchant_rules(csv_path):
     """Load user merchant categorization rules from CSV file.
 
@@ -84,7 +89,7 @@ def load_merchant_rules(csv_path):
             tags = [t.strip() for t in tags_str.split('|') if t.strip()] if tags_str else []
 
             rules.append((
-                parsed.regex_pattern,  # Pure regex for matching
+                CsvRegexPattern(parsed.regex_pattern),  # Pure regex for matching
                 row['Merchant'],
                 row['Category'],
                 row['Subcategory'],
@@ -677,6 +682,9 @@ def normalize_merchant(
 def _is_expression_pattern(pattern: str) -> bool:
     """Check if a pattern is an expression (uses function syntax) vs a regex."""
     import re
+    if isinstance(pattern, CsvRegexPattern):
+        # e.g. '(AMAZON|AMZN)', 'BARNES and NOBLE', 'amount>5': regexes from a CSV file
+        return False
     # Expression patterns start with:
     # - Function calls like contains(), normalized(), extract(), etc.
     # - Field access like field.txn_type
